@@ -154,6 +154,21 @@ func (eng *Engine) registerIntrinsics() {
 		e.observes = append(e.observes, name+"="+e.observeString(args[1]))
 		return nil
 	})
+	vp("And", func(e *Exec, fr *frame, fn *ssa.Function, args []Value) Value {
+		return e.ctx.And(args[0].(*Term), args[1].(*Term))
+	})
+	vp("Or", func(e *Exec, fr *frame, fn *ssa.Function, args []Value) Value {
+		return e.ctx.Or(args[0].(*Term), args[1].(*Term))
+	})
+	vp("Implies", func(e *Exec, fr *frame, fn *ssa.Function, args []Value) Value {
+		return e.ctx.Implies(args[0].(*Term), args[1].(*Term))
+	})
+	vp("IteInt", func(e *Exec, fr *frame, fn *ssa.Function, args []Value) Value {
+		return e.ctx.Ite(args[0].(*Term), args[1].(*Term), args[2].(*Term))
+	})
+	vp("IteByte", func(e *Exec, fr *frame, fn *ssa.Function, args []Value) Value {
+		return e.ctx.Ite(args[0].(*Term), args[1].(*Term), args[2].(*Term))
+	})
 	vp("Symbolic", func(e *Exec, fr *frame, fn *ssa.Function, args []Value) Value {
 		return mkBool(e.eng.conf.Concrete == nil)
 	})
